@@ -145,29 +145,34 @@ def forResponseAbs (http10 : Bool) (m : Method) (status : Nat) (fr : Framing) : 
 def forResponse (http10 : Bool) (m : Method) (status : Nat) (hs : List Hdr) : Except Fault BodyReader :=
   forResponseAbs http10 m status (framingOf hs)
 
+/-- `HeaderMap::insert("connection", "close")` on the parsed fields: an existing entry keeps its position
+    and loses its extra values -/
+def insertConnClose (fields : List Hdr) : List Hdr :=
+  if fields.any (·.name == "connection") then
+    (fields.take ((fields.findIdx? (·.name == "connection")).getD 0)).filter (·.name != "connection") ++
+      [{ name := "connection", value := strBytes "close" }] ++
+      (fields.drop ((fields.findIdx? (·.name == "connection")).getD 0 + 1)).filter (·.name != "connection")
+  else fields ++ [{ name := "connection", value := strBytes "close" }]
+
+/-- the parse step of `Call<RecvResponse>::try_response`: the complete parser, and — when it needs more
+    data and the fallback is present (`hack`) — the partial parser accepting a 3xx with a Location field -/
+def parseWithFallback (hack : Bool) (input : Bytes) : Except Fault (Option (Nat × RespHead)) :=
+  match tryParseResponse 128 input with
+  | .error f => .error f
+  | .ok (some v) => .ok (some v)
+  | .ok none =>
+    if !hack then .ok none else
+    match tryParsePartial 128 input with
+    | .error f => .error f
+    | .ok none => .ok none
+    | .ok (some r) =>
+      if 300 ≤ r.status ∧ r.status ≤ 399 ∧ (r.fields.any (·.name == "location")) then
+        .ok (some (input.length, { r with fields := insertConnClose r.fields }))
+      else .ok none
+
 /-- call.rs Call<RecvResponse>::try_response, with the partial-redirect fallback switchable -/
 def callTryResponse (hack : Bool) (c : CallSt) (input : Bytes) : CallSt × Except Fault (Option (Nat × RespHead)) :=
-  let parsed : Except Fault (Option (Nat × RespHead)) :=
-    match tryParseResponse 128 input with
-    | .error f => .error f
-    | .ok (some v) => .ok (some v)
-    | .ok none =>
-      if !hack then .ok none else
-      match tryParsePartial 128 input with
-      | .error f => .error f
-      | .ok none => .ok none
-      | .ok (some r) =>
-        if 300 ≤ r.status ∧ r.status ≤ 399 ∧ (r.fields.any (·.name == "location")) then
-          -- synthetic connection: close replaces any existing connection field (HeaderMap::insert)
-          -- HeaderMap::insert: an existing entry keeps its position and loses its extra values
-          let close : Hdr := { name := "connection", value := strBytes "close" }
-          let fs := if r.fields.any (·.name == "connection") then
-              let idx := (r.fields.findIdx? (·.name == "connection")).getD 0
-              (r.fields.take idx).filter (·.name != "connection") ++ [close] ++ (r.fields.drop (idx + 1)).filter (·.name != "connection")
-            else r.fields ++ [close]
-          .ok (some (input.length, { r with fields := fs }))
-        else .ok none
-  match parsed with
+  match parseWithFallback hack input with
   | .error f => (c, .error f)
   | .ok none => (c, .ok none)
   | .ok (some (used, r)) =>
@@ -214,10 +219,14 @@ def CallSt.writeNoBody (c : CallSt) (cap : Nat) : CallSt × Except Fault Bytes :
     | (c2, w2, .ok ()) => (c2, .ok w2.out)
     | (c2, _, .error e) => (c2, .error e)
 
+/-- `input.len() as u64 > left` for a length-delimited body -/
+def BodyWriter.overLimit (bw : BodyWriter) (n : Nat) : Bool :=
+  match bw.leftToSend with | some left => decide (n > left) | none => false
+
 /-- the body part of `Call<WithBody>::write` (phase is SendBody): the two guards, then the writer -/
 def CallSt.writeBodyPhase (c : CallSt) (input : Bytes) (cap : Nat) : CallSt × Except Fault (Nat × Bytes) :=
   if !input.isEmpty && c.writer.ended then (c, .error (.api .bodyContentAfterFinish))
-  else if (match c.writer.leftToSend with | some left => decide (input.length > left) | none => false) then
+  else if c.writer.overLimit input.length then
     (c, .error (.api .bodyLargerThanContentLength))
   else
     match c.writer.write input { out := [], cap := cap } with
